@@ -447,6 +447,9 @@ impl Batch {
         let reg = registry();
         let sweep = sweep_plans(&reg);
         let jsweep = sweep_jplans(&reg);
+        // From here on a panic inside the code under test is caught and judged by the oracle; keep
+        // stderr quiet. (A panic before this point is a harness bug and must be seen.)
+        std::panic::set_hook(Box::new(|_| {}));
         Batch { reg, sweep, jsweep, seed }
     }
 
